@@ -125,6 +125,12 @@ ReturnList(text, its, meta) ==    \* list / list_all return; meta: json_ok / spl
   /\ hist' = Append(hist, HistEntry(op, text, its))
   /\ UNCHANGED <<file, cfg, op, toks, vals, tags, tree, marks, removed, fmt>>
 
+ReturnListDirect(text, its, meta) ==   \* named deviation: a listing call answered without running the stages
+  /\ pc = "called" /\ op \in ListOps   \* (an early return in front of the pipeline); nothing is observed between
+  /\ out' = text /\ items' = its /\ res' = meta /\ pc' = "returned"   \* call and return, the stage variables stay
+  /\ hist' = Append(hist, HistEntry(op, text, its))                   \* empty, and every result predicate
+  /\ UNCHANGED <<file, cfg, op, toks, vals, tags, tree, marks, removed, fmt>>   \* (C15 - C17, C01) applies as usual
+
 Panic(at) ==                      \* the real code panicked; no reference behaviour contains this step
   /\ pc' = "crashed" /\ res' = [at |-> at]
   /\ UNCHANGED <<file, cfg, op, toks, vals, tags, tree, marks, removed, fmt, out, items, hist>>
